@@ -18,9 +18,10 @@ import (
 // what PubSession.feedPacket calls for every datagram (UDP) or 2-byte-length frame (TCP).
 
 type sfPsFeeder struct {
-	u   *gb28181.PsUnpacker
-	n   int
-	seq int
+	u    *gb28181.PsUnpacker
+	n    int
+	seq  int
+	hole int
 }
 
 func (e *sfEnv) newPsFeeder(stream string) (*sfPsFeeder, func(), error) {
@@ -46,6 +47,101 @@ func (e *sfEnv) newPsFeeder(stream string) (*sfPsFeeder, func(), error) {
 func (f *sfPsFeeder) feed(hdr string, n int, ts uint32, body []byte) {
 	f.seq++
 	_ = f.u.FeedRtpPacket(proj.SfRtpDatagram(hdr, n, true, 96, f.seq, ts, 0x33333333, body))
+}
+
+// feedAt sends a well-formed RTP packet with sequence number class cls relative to what was sent before:
+// next | gap (one number skipped) | hole (the skipped number) | back (an old number).
+func (f *sfPsFeeder) feedAt(cls string, ts uint32, body []byte) {
+	seq := f.seq + 1
+	switch cls {
+	case "gap":
+		f.hole = f.seq + 1
+		seq = f.seq + 2
+	case "hole":
+		if f.hole != 0 {
+			seq = f.hole
+			f.hole = 0
+		}
+	case "back":
+		seq = f.seq - 5
+	}
+	if seq > f.seq {
+		f.seq = seq
+	}
+	_ = f.u.FeedRtpPacket(proj.SfRtpDatagram("ok", 0, true, 96, seq&0xffff, ts, 0x33333333, body))
+}
+
+// sfPsListLimit is gb28181's bound on cached out-of-order packets (maxUnpackRtpListSize); "fill" elements
+// send somewhat more than that many packets.
+const sfPsListLimit = 1024
+
+func sfPsGoodUnit(t int64) []byte {
+	var b []byte
+	b = append(b, proj.SfPsElem("pack", "ok", t)...)
+	b = append(b, proj.SfPsElem("sys", "ok", t)...)
+	b = append(b, proj.SfPsElem("psm", "avc", t)...)
+	b = append(b, proj.SfPsElem("pesv", "ok", t)...)
+	b = append(b, proj.SfPsElem("pesa", "ok", t)...)
+	return b
+}
+
+// runPsq: RTP sequencing of the GB28181 surface: well-formed / unknown-start-code / continuation packets
+// arriving in order, after a gap, into a gap or late, and "fill" elements that push the reorder list to
+// its limit.
+func (e *sfEnv) runPsq(sc *sfScenario, end M) (obs []sfObs) {
+	f, del, err := e.newPsFeeder(fmt.Sprintf("p%d", sc.Sc))
+	if err != nil {
+		end["note"] = "add pub failed"
+		return
+	}
+	if sc.Cfg["pre"] == "good" {
+		f.feedGood(90000)
+	}
+	cont := make([]byte, 100)
+	for i := range cont {
+		cont[i] = 0x55
+	}
+	bad := []byte{0xff, 0xff, 0xff, 0xff, 0xff, 0xff, 0xff, 0xff}
+	for i, raw := range sc.Steps {
+		var el sfEl
+		json.Unmarshal(raw, &el)
+		pts := int64(180000 + 3600*i)
+		switch el.K {
+		case "good":
+			f.feedAt(el.A, uint32(pts), sfPsGoodUnit(pts))
+		case "bad":
+			f.feedAt(el.A, uint32(pts), bad)
+		case "cont":
+			f.feedAt(el.A, uint32(pts), cont)
+		case "fill":
+			// one packet in order (after a reset of the unpacker's list any number is taken as the next one),
+			// then a gap, then more packets than the list holds
+			f.feedAt("next", uint32(pts), sfPsGoodUnit(pts))
+			cls := "gap"
+			for k := 0; k < sfPsListLimit+80; k++ {
+				switch el.A {
+				case "consec_nosc":
+					f.feedAt(cls, uint32(pts), cont)
+				case "consec_sc":
+					f.feedAt(cls, uint32(pts), proj.SfPsElem("pesv", "ok", pts+int64(k)))
+				case "consec_bad":
+					f.feedAt(cls, uint32(pts), bad)
+				case "gapped":
+					f.feedAt("gap", uint32(pts), cont)
+				}
+				cls = "next"
+			}
+		}
+		obs = append(obs, sfObs{Codes: []int{}, Alive: true})
+	}
+	del()
+	f2, del2, err := e.newPsFeeder(fmt.Sprintf("q%d", sc.Sc))
+	if err == nil {
+		end["second"] = f2.feedGood(90000) > 0
+		del2()
+	}
+	end["bystander"] = true
+	return
 }
 
 // feedGood sends one well-formed access unit (pack header, system header, PSM, video PES, audio PES).
